@@ -9,7 +9,7 @@ RULE = ("instants at calendar range ends, +-1 ns around local midnight in the ch
         "every calendar; 12 seeded zones incl. Apia/Lord_Howe/Kolkata; durations from a lattice (0, +-1 ns, +-day, seeded up to 10^16 ns); distinct key = "
         "(operation, calendar, local-day carry count, offset sign, zone)")
 ASSUMPTIONS = ["integer model local = instant + offset", "C01 day mapping for local fields", "zone offsets taken from zone.get_utc_offset (C04/C06 judge those)"]
-MIN_NT = {"quick": 800, "thorough": 3000}
+MIN_NT = {"quick": 800, "thorough": 1500}
 REQUIRED = {"any": ["construct", "with_offset", "with_calendar", "adjusters", "duration_arith", "difference", "zoned", "offset_date_time_parts"]}
 
 DAY = 86400 * 10**9
